@@ -86,7 +86,7 @@ class RandomProxy:
         return getattr(self._real, name)
 
 
-def run_generator(argv=None, call=None, force_random=None, pre_files=None):
+def run_generator(argv=None, call=None, force_random=None, pre_files=None, inputs_dir=True):
     """Run roberta_generator.main() with `argv` (or `call(rg)`) in a scratch cwd containing an
     empty inputs/ directory.  Returns dict(outcome, files {name: text}, log [effects])."""
     import builtins
@@ -94,7 +94,8 @@ def run_generator(argv=None, call=None, force_random=None, pre_files=None):
     import sys
     rg = repo("roberta_generator")
     d = tempfile.mkdtemp(prefix="crv.v2_")            # a working directory whose path contains a dot
-    os.mkdir(os.path.join(d, "inputs"))
+    if inputs_dir:
+        os.mkdir(os.path.join(d, "inputs"))
     for name, content in (pre_files or {}).items():      # files left by an earlier run in this directory
         with open(os.path.join(d, name), "w") as f:
             f.write(content)
@@ -121,11 +122,15 @@ def run_generator(argv=None, call=None, force_random=None, pre_files=None):
             out["outcome"] = type(e).__name__
             out["msg"] = str(e)[:200]
         files = {}
-        for root, _, fs in os.walk(d):
+        dirs = []
+        for root, ds, fs in os.walk(d):
             for f in fs:
                 p = os.path.join(root, f)
                 files[os.path.relpath(p, d)] = open(p).read()
+            for sub in ds:
+                dirs.append(os.path.relpath(os.path.join(root, sub), d))
         out["files"] = files
+        out["dirs"] = sorted(dirs)      # directories present afterwards (inputs/ itself when it was pre-created)
     finally:
         os.chdir(old_cwd)
         sys.argv = old_argv
